@@ -1,8 +1,189 @@
-import Ufw.Model.RegTable
+/-
+C01 – typed register set/get is lossless and constraint-enforcing.  Property theorems only;
+helper lemmas live in Ufw/Lemmas/RegTable.lean.
+
+`cb` is the family of user validator callbacks, `t` any table state (not necessarily produced
+by `register_init`: the theorems hold for every state the model can be in).
+-/
+import Ufw.Lemmas.RegTable
+
 namespace Ufw.Props.C01
-open Ufw Ufw.Model.RegTable
-/-- an uninitialised table refuses typed access -/
-theorem uninitialised_refuses (cb : Nat → Value → Bool) (t : Table) (h : t.initialised = false) (idx : Nat) (v : Value) :
-    register_set cb t idx v = (⟨.uninitialised, idx⟩, t) ∧ (register_get t idx).1 = ⟨.uninitialised, idx⟩ := by
-  simp [register_set, register_setx, register_get, h]
+open Ufw Ufw.Model.RegTable Ufw.Lemmas.RegTable
+
+/-- what a successful set (checked or unchecked) consists of -/
+theorem set_success_inv (cb : Nat → Value → Bool) (t t' : Table) (idx : Nat) (v : Value) (wv : Bool) (adr : Nat)
+    (h : register_setx cb t idx v wv = (⟨.success, adr⟩, t')) :
+    t.initialised = true ∧
+    ∃ e a raw a', t.entries[idx]? = some e ∧ (wv = true → rv_validate cb t e v = true) ∧
+      t.areas[e.area]? = some a ∧ a.hasWrite = true ∧ ser t.bigEndian e.type v.bits = some raw ∧
+      a.write e.offset raw = some a' ∧ t' = { t with areas := t.areas.set e.area a' } := by
+  simp only [register_setx] at h
+  split at h
+  · simp at h
+  rename_i hi
+  split at h
+  · simp at h
+  rename_i e he
+  split at h
+  · simp at h
+  rename_i hval
+  split at h
+  · simp [oob] at h
+  rename_i a ha
+  split at h
+  · simp at h
+  rename_i hw
+  split at h
+  · simp at h
+  rename_i raw hs
+  split at h
+  · simp [oob] at h
+  rename_i a' hwr
+  simp only [Prod.mk.injEq] at h
+  refine ⟨by simpa using hi, e, a, raw, a', he, ?_, ha, by simpa using hw, hs, hwr, h.2.symm⟩
+  intro hwv
+  subst hwv
+  simpa using hval
+
+/-- a successful set followed by a get returns the identical value -/
+theorem set_get (cb : Nat → Value → Bool) (t t' : Table) (idx : Nat) (v : Value) (wv : Bool) (adr : Nat)
+    (h : register_setx cb t idx v wv = (⟨.success, adr⟩, t'))
+    (hty : ∀ e, t.entries[idx]? = some e → e.type = v.type) (hb : v.bits < 2 ^ v.type.bits) :
+    register_get t' idx = (⟨.success, 0⟩, some v) := by
+  obtain ⟨hi, e, a, raw, a', he, _, ha, _, hs, hwr, ht'⟩ := set_success_inv cb t t' idx v wv adr h
+  have het := hty e he
+  subst ht'
+  have hl := ser_length _ _ _ _ hs
+  have hrd := write_read a a' e.offset raw hwr
+  rw [hl] at hrd
+  have hdes := des_ser t.bigEndian e.type v.bits raw hs (by rw [het]; exact hb)
+  simp only [register_get, hi, Bool.not_true, Bool.false_eq_true, ↓reduceIte, he,
+    set_getElem t.areas e.area a a' ha, hrd, hdes]
+  cases v
+  simp_all
+
+/-- the checked variant only succeeds on a value of the register's type, so for it the round trip
+    needs no type hypothesis -/
+theorem checked_set_get (cb : Nat → Value → Bool) (t t' : Table) (idx : Nat) (v : Value) (adr : Nat)
+    (h : register_set cb t idx v = (⟨.success, adr⟩, t')) (hb : v.bits < 2 ^ v.type.bits) :
+    register_get t' idx = (⟨.success, 0⟩, some v) := by
+  obtain ⟨_, e, _, _, _, he, hval, _⟩ := set_success_inv cb t t' idx v true adr h
+  refine set_get cb t t' idx v true adr h ?_ hb
+  intro e' he'
+  rw [he] at he'
+  cases he'
+  have := hval rfl
+  simp only [rv_validate, Bool.and_eq_true, beq_iff_eq] at this
+  exact this.1
+
+/-- the backing atoms hold exactly the value in the table's byte order; nothing else changes:
+    not the rest of the area, not another area, not the register descriptions -/
+theorem set_storage (cb : Nat → Value → Bool) (t t' : Table) (idx : Nat) (v : Value) (wv : Bool) (adr : Nat)
+    (h : register_setx cb t idx v wv = (⟨.success, adr⟩, t')) :
+    ∃ e a a', t.entries[idx]? = some e ∧ t.areas[e.area]? = some a ∧ t'.areas[e.area]? = some a' ∧
+      (a'.mem.drop e.offset).take e.type.size =
+        atomsOfOctets (Ufw.Spec.Endian.store t.bigEndian (2 * e.type.size) v.bits) ∧
+      a'.mem.take e.offset = a.mem.take e.offset ∧
+      a'.mem.drop (e.offset + e.type.size) = a.mem.drop (e.offset + e.type.size) ∧
+      a'.mem.length = a.mem.length ∧
+      (∀ j, j ≠ e.area → t'.areas[j]? = t.areas[j]?) ∧
+      t'.entries = t.entries ∧ t'.bigEndian = t.bigEndian ∧ t'.initialised = t.initialised := by
+  obtain ⟨hi, e, a, raw, a', he, _, ha, _, hs, hwr, ht'⟩ := set_success_inv cb t t' idx v wv adr h
+  subst ht'
+  have hl := ser_length _ _ _ _ hs
+  have hf := ser_floatOk _ _ _ _ hs
+  obtain ⟨f1, f2, f3, _⟩ := write_frame a a' e.offset raw hwr
+  have hrd := write_read a a' e.offset raw hwr
+  refine ⟨e, a, a', he, ha, set_getElem t.areas e.area a a' ha, ?_, f2, ?_, f1, ?_, rfl, rfl, rfl⟩
+  · simp only [Area.read] at hrd
+    split at hrd
+    · simp only [Option.some.injEq] at hrd
+      rw [hl] at hrd
+      rw [hrd]
+      simp only [ser, hf, ↓reduceIte, Option.some.injEq] at hs
+      exact hs.symm
+    · simp at hrd
+  · rw [hl] at f3; exact f3
+  · intro j hj
+    simp only [List.getElem?_set]
+    split
+    · rename_i hji; exact absurd hji.symm hj
+    · rfl
+
+/-- a set that is refused - for whatever reason, by either variant - leaves the table as it was -/
+theorem set_refused_unchanged (cb : Nat → Value → Bool) (t : Table) (idx : Nat) (v : Value) (wv : Bool)
+    (h : (register_setx cb t idx v wv).1.code ≠ .success) : (register_setx cb t idx v wv).2 = t := by
+  simp only [register_setx] at h ⊢
+  split
+  · rfl
+  split
+  · rfl
+  split
+  · rfl
+  split
+  · rfl
+  split
+  · rfl
+  split
+  · rfl
+  split
+  · rfl
+  · rename_i hi _ e he hval _ a ha hw _ raw hs _ a' hwr
+    simp [hi, he, hval, ha, hw, hs, hwr] at h
+
+/-- a handle that is not a register of the table: 'no such entry' from both variants -/
+theorem set_bad_handle (cb : Nat → Value → Bool) (t : Table) (idx : Nat) (v : Value) (wv : Bool)
+    (hi : t.initialised = true) (hidx : t.entries.length ≤ idx) :
+    register_setx cb t idx v wv = (⟨.noentry, idx⟩, t) := by
+  simp [register_setx, hi, List.getElem?_eq_none hidx]
+
+/-- the checked set refuses a value of another type and a value that violates the register's
+    min / max / range / callback / always-fail constraint: 'range' at the register's address -/
+theorem set_refuses_invalid (cb : Nat → Value → Bool) (t : Table) (idx : Nat) (v : Value) (e : Entry)
+    (hi : t.initialised = true) (he : t.entries[idx]? = some e)
+    (hbad : e.type ≠ v.type ∨ checkOk cb t.duringInit e v = false) :
+    register_set cb t idx v = (⟨.range, e.address⟩, t) := by
+  have : rv_validate cb t e v = false := by
+    simp only [rv_validate]
+    rcases hbad with hb | hb
+    · simp [hb]
+    · simp [hb]
+  simp [register_set, register_setx, hi, he, this]
+
+/-- both variants refuse a float that is NaN, infinite or subnormal: 'invalid', storage unchanged -/
+theorem set_refuses_bad_float (cb : Nat → Value → Bool) (t : Table) (idx : Nat) (v : Value) (e : Entry) (a : Area)
+    (wv : Bool) (hi : t.initialised = true) (he : t.entries[idx]? = some e)
+    (hval : wv = true → rv_validate cb t e v = true) (ha : t.areas[e.area]? = some a) (hw : a.hasWrite = true)
+    (hf : floatOk e.type v.bits = false) :
+    register_setx cb t idx v wv = (⟨.invalid, e.address⟩, t) := by
+  have hv : (wv && !rv_validate cb t e v) = false := by
+    cases wv
+    · rfl
+    · simp [hval rfl]
+  simp [register_setx, hi, he, hv, ha, hw, ser, hf]
+
+/-- the unchecked variant skips only the type and constraint checks: on a value the checked
+    variant accepts, both do exactly the same -/
+theorem unsafe_eq_checked (cb : Nat → Value → Bool) (t : Table) (idx : Nat) (v : Value)
+    (h : ∀ e, t.entries[idx]? = some e → rv_validate cb t e v = true) :
+    register_set_unsafe cb t idx v = register_set cb t idx v := by
+  simp only [register_set_unsafe, register_set, register_setx]
+  split
+  · rfl
+  split
+  · rfl
+  rename_i e he
+  simp [h e he]
+
+/-! #### the hypotheses are satisfiable: a concrete table -/
+
+def demoTable : Table :=
+  { areas := [{ base := 16, size := 4, mem := [0, 0, 0, 0] }],
+    entries := [{ type := .u32, default := 5, address := 17, check := .range 1 100, area := 0, offset := 1 }],
+    bigEndian := true, initialised := true }
+
+example : register_set (fun _ _ => true) demoTable 0 ⟨.u32, 0x10002⟩ = (⟨.range, 17⟩, demoTable) := by decide
+example : (register_set (fun _ _ => true) demoTable 0 ⟨.u32, 77⟩).1 = ⟨.success, 0⟩ ∧
+    ((register_set (fun _ _ => true) demoTable 0 ⟨.u32, 77⟩).2.areas.map (·.mem)) = [[0, 0, 77 * 256, 0]] := by decide
+
 end Ufw.Props.C01
